@@ -147,3 +147,17 @@ Proof. reflexivity. Qed.
 (* ---------------------------------------------------------------- FanoutCache.__init__ *)
 Lemma bridge_shard_size_limit_q l n : shard_size_limit l n = (inject_Z l / inject_Z n)%Q.
 Proof. reflexivity. Qed.
+
+(* each shard is created with size_limit / shards: the exact rational (Python's true division rounds it to the
+   nearest binary64, which is the rational itself whenever shards divides size_limit) *)
+Lemma shard_limit_times l n : n <> 0 -> (shard_size_limit l n * inject_Z n == inject_Z l)%Q.
+Proof. intros H. rewrite bridge_shard_size_limit_q. field. unfold Qeq. cbn. lia. Qed.
+
+Lemma shard_limit_exact l n : 0 < n -> (n | l) -> (shard_size_limit l n == inject_Z (l / n))%Q.
+Proof.
+  intros Hn [q ->]. rewrite bridge_shard_size_limit_q, Z.div_mul by lia. rewrite inject_Z_mult.
+  field. unfold Qeq. cbn. lia.
+Qed.
+
+Example shard_limit_example : (shard_size_limit 1000 4 == inject_Z 250)%Q /\ (shard_size_limit 1000 3 * inject_Z 3 == inject_Z 1000)%Q.
+Proof. split; [apply (shard_limit_exact 1000 4); [lia|exists 250; reflexivity]|apply shard_limit_times; lia]. Qed.
